@@ -62,6 +62,7 @@ let dispatch (comp : string) (items : M.item list) : verdict =
   | "MC" -> VB (M.mc_check_items items)
   | "TR" -> VB (M.tr_check_items items)
   | "CN" -> VB (M.cn_check_items items)
+  | "CG" -> VB (M.cg_check_items items)
   | _ -> failwith ("unknown component " ^ comp)
 
 let rec int_of_pos (p : M.positive) : int =
